@@ -2,11 +2,11 @@
    Model: coq/Planner/{Terms,Rows,Clause,Store,Fetch,Plan}.v follow bql/planner/{planner,data_access}.go and
    bql/table/table.go; `current ks strlit` is the tree with this family's repairs (F9 ecd016d, F14 b974631, F15 cd0ad98,
    Foid 80d28a9); `original` the tree before them.  Specification: PatternSpec.v.
-   Layered theorems (full statements over all clauses / triples / graphs); the composition over whole patterns
-   (C03_select_is_solutions) is listed as OPEN in design-notes/C03.md and is only covered by the correspondence run. *)
+   Layered theorems (full statements over all clauses / triples / graphs) and their composition over whole patterns on
+   the domain D3 (C03_select_is_solutions_partial, C03_rows_are_solutions_partial, C03_no_solution_missing_partial). *)
 From Coq Require Import List ZArith NArith Bool.
 Import ListNotations.
-From BWPlanner Require Import Terms Rows Clause Store Fetch Plan PatternSpec Current Corr Witnesses RowsProofs FetchProofs PlanProofs SpecSound.
+From BWPlanner Require Import Terms Rows Clause Store Fetch Plan PatternSpec Current Domain Corr Witnesses RowsProofs FetchProofs PlanProofs SpecSound Equiv Uniform Compose Compose2 Compose3.
 
 (* ---- layer 1 (tripleToRow + shouldIgnoreTriple = the declarative reading of one clause on one triple).
    xval opt x t: the part of t that extractor x denotes (NULL inside an OPTIONAL clause when it does not apply).
@@ -90,6 +90,65 @@ Proof.
   vm_compute. eexists _, _. reflexivity.
   Unshelve. exact (nth 0 (q_clauses (w_kind (current true false))) (mkClause false None [] [] [] [] None [] [] [] [] [] [] None None [] [] false None [] [] [] [] [] [] [] None None [] [] false)).
 Qed.
+
+(* ---- layer 3: the composition.  D3 (boolean; Compose.d3_clause, Compose3.D3):
+     environment: the store compares predicate kinds (F6), literal.Parse rejects unknown types (F3), repairs F14, Foid, F24 in;
+     graphs hold no two triples with the same key (as the store guarantees);
+     at least one clause, and every clause: not OPTIONAL, not fully specified, no interval `"id"@[lb,ub]` / bound alias, no ID alias
+       on the object, a predicate / object id only together with an anchor binding, pairwise different binding names inside the
+       clause, at least one binding;
+     output bindings pairwise different.
+   Cells are compared by `cequiv` = equal up to the zone in which an instant is written (orow_equiv lifts it to output rows). *)
+Theorem C03_select_is_solutions_partial :
+  forall e gs glo cs outs projs, D3 e gs cs outs = true ->
+    exists bs rows, execute e gs glo cs outs projs = Ok (bs, rows) /\
+                    Forall2 orow_equiv rows (spec_select glo gs cs outs projs).
+Proof. exact execute_is_spec_select. Qed.
+Print Assumptions C03_select_is_solutions_partial.
+
+(* the same as multisets (the order of rows is not part of the property) *)
+Theorem C03_select_multiset_partial :
+  forall e gs glo cs outs projs, D3 e gs cs outs = true ->
+    exists bs rows, execute e gs glo cs outs projs = Ok (bs, rows) /\
+                    exists rows', Permutation.Permutation (spec_select glo gs cs outs projs) rows' /\ Forall2 orow_equiv rows rows'.
+Proof. exact execute_multiset. Qed.
+Print Assumptions C03_select_multiset_partial.
+
+(* against the DECLARATIVE statement, before projection: every row the planner builds is a solution of the pattern (every
+   clause is matched by a stored triple of a listed graph under the row's values: constants, kinds, time bounds, one value per
+   binding, extractions = parts of the matched triple), and no solution is missing: every solution extends some returned row *)
+Theorem C03_rows_are_solutions_partial :
+  forall e gs glo cs outs, D3 e gs cs outs = true ->
+    exists t, process_pattern e gs glo cs empty_table = Ok t /\
+      (forall r, In r (trows t) -> is_solution cs glo gs r) /\
+      (forall mu, is_solution cs glo gs mu -> exists r, In r (trows t) /\ sub_equiv r mu).
+Proof. exact pattern_sound_complete. Qed.
+Print Assumptions C03_rows_are_solutions_partial.
+
+(* the oracle is complete as well as sound (any pattern without OPTIONAL, no domain restriction) *)
+Theorem C03_reference_complete :
+  forall glo gs cs mu, forallb (fun c => negb (c_opt c)) cs = true -> is_solution cs glo gs mu ->
+    exists r, In r (spec_solutions glo gs cs) /\ sub_equiv r mu.
+Proof. exact spec_solutions_complete. Qed.
+Print Assumptions C03_reference_complete.
+
+(* the step behind the composition, for ONE row and ALL graphs / clauses in the fragment: addSpecifiedData returns the
+   specification's extensions of the row *)
+Theorem C03_add_specified_data_spec :
+  forall e gs glo c mu mu',
+    d3_clause c = true -> ks e = true -> strlit_invalid e = false -> fix14 e = true -> fixoid e = true -> fixsb e = true ->
+    forallb graph_nodup gs = true -> get mu [] = None -> row_equiv mu mu' ->
+    exists rows, add_specified_data e gs glo c mu = Ok rows /\ Forall2 row_equiv rows (spec_extend c glo gs mu').
+Proof. intros e gs glo c mu mu' D. apply asd_spec. apply d3_clause_d3c. exact D. Qed.
+Print Assumptions C03_add_specified_data_spec.
+
+(* D3 is inhabited by a non-trivial case: a two-clause join with an anchor binding and a TYPE extraction over a graph with a
+   literal that must not join; the planner returns the one solution *)
+Example C03_D3_example :
+  let q := w_d3_example (current true false) in
+  D3 (q_cfg q) (q_graphs q) (q_clauses q) (q_outs q) = true /\
+  length (q_clauses q) = 2%nat /\ exists bs row, run_model q = Ok (bs, [row]).
+Proof. vm_compute. split; [reflexivity|]. split; [reflexivity|]. eexists _, _. reflexivity. Qed.
 
 (* ---- refutations: the full statement "the rows are exactly the solutions, for every conjunctive pattern" is false of the
    faithful model; each witness is replayed on the real planner by checks/c03.py (corpus/C03/witnesses.jsonl). *)
